@@ -233,6 +233,34 @@ fn run_op(w: &mut World, op: &Value) -> Value {
                 disable_api_if_not_fully_synced: Some(Flag::Disabled),
                 ..Default::default()
             });
+            // optionally a stable prefix: `stable_prefix` = k > 0 puts k blocks (genesis and k - 1 more) into the stable set and
+            // makes the scenario's anchor (id 1) the root of the unstable tree at height k
+            let k = op["stable_prefix"].as_u64().unwrap_or(0);
+            if k > 0 && op.get("anchor").is_some() {
+                with_state_mut(|s| s.unstable_blocks.set_stability_threshold(1));
+                let mut prev = with_state(|s| *unstable_blocks::get_main_chain(&s.unstable_blocks).tip().block().header());
+                for i in 1..k {
+                    let cb = TransactionBuilder::coinbase().with_lock_time(7000 + i as u32).with_output(&address(50000 + i), 77).build();
+                    let mut blk = Block::new(BlockBuilder::with_prev_header(prev).with_transaction(cb).build());
+                    blk.mock_difficulty = Some(1);
+                    prev = *blk.header();
+                    with_state_mut(|s| unstable_blocks::push(&mut s.unstable_blocks, &s.utxos, blk).unwrap());
+                }
+                // the scenario anchor as a child of the prefix
+                let mut spec = op["anchor"].clone();
+                spec["parent"] = json!(900000u64);
+                w.blocks.insert(900000, Block::new(bitcoin::Block { header: prev, txdata: vec![] }));
+                let anchor = w.build_block(&spec);
+                w.blocks.remove(&900000);
+                with_state_mut(|s| unstable_blocks::push(&mut s.unstable_blocks, &s.utxos, anchor).unwrap());
+                let mut guard = 0;
+                while with_state(|s| s.stable_height()) < k as u32 && guard < 64 {
+                    guard += 1;
+                    let _ = with_state_mut(state::ingest_stable_blocks_into_utxoset);
+                }
+                with_state_mut(|s| s.unstable_blocks.set_stability_threshold(thr as u32));
+                return json!({"stable_height": with_state(|s| s.stable_height())});
+            }
             // replace the genesis anchor by the scenario's anchor (id 1) so that its difficulty can be chosen
             if op.get("anchor").is_some() {
                 let blk = w.build_block(&op["anchor"]);
